@@ -15,6 +15,7 @@ func poolNewField(e *Exec) int {
 func poolGet(e *Exec, c *frame, a []Value) Value {
 	p := a[0].(*Value)
 	e.yield()
+	e.mon[2]++
 	if !e.havoc {
 		if items := e.poolItems[p]; len(items) > 0 {
 			// history mode: the most recently put object (LIFO, as a single P's private slot does)
@@ -48,6 +49,7 @@ func poolPut(e *Exec, c *frame, a []Value) Value {
 	}
 	e.yield()
 	pv, isPtr := x.V.(*Value)
+	e.mon[1]++
 	if isPtr && pv != nil {
 		if g, ok := e.pkgVar("emptyResult"); ok {
 			if er, ok := (*g).(*Value); ok && er == pv {
@@ -123,6 +125,7 @@ func (e *Exec) noteStore(addr *Value, v Value) {
 	if len(e.frozen) == 0 {
 		return
 	}
+	e.mon[0]++
 	if lbl, ok := e.frozen[addr]; ok {
 		old := *addr
 		if sameValue(old, v) {
@@ -136,6 +139,7 @@ func (e *Exec) noteMapWrite(m *Map, where string) {
 	if len(e.frozenMaps) == 0 {
 		return
 	}
+	e.mon[0]++
 	if lbl, ok := e.frozenMaps[m]; ok {
 		e.event("frame", "frame:"+lbl, fmt.Sprintf("update of a map of read-only %s in %s", lbl, where))
 	}
